@@ -50,6 +50,15 @@ MUTANTS = [
       ("                // destroy job by closing scope\n            }\n", "")],
      None, "seeded c10b-B: the scope around the local Job removed: the job object is destroyed after the bookkeeping, "
            "with mutex_ held"),
+    ("c10_m9_no_terminate_recheck_after_wait", "C10", "tlx/thread_pool.cpp",
+     [("    while (true)\n    {", "    while (!terminate_)\n    {"),
+      ("        if (!terminate_ && jobs_.empty())\n", "        if (jobs_.empty())\n"),
+      ("        if (terminate_)\n            break;\n\n", "")],
+     None, "seeded c10e-A: a worker woken from the idle wait does not re-check terminate_ before it picks a job"),
+    ("c10_m10_drain_queue_inner_loop", "C10", "tlx/thread_pool.cpp",
+     "        if (!jobs_.empty())\n        {\n            // got work. set busy.",
+     "        while (!jobs_.empty())\n        {\n            // got work. set busy.",
+     "seeded c10e-B: the worker drains the queue without passing the terminate check between jobs"),
     ("c11_m1_signal_n_notify_one", "C11", "tlx/semaphore.hpp",
      "        size_t res = (value_ += delta);\n        cv_.notify_all();",
      "        size_t res = (value_ += delta);\n        cv_.notify_one();",
